@@ -24,13 +24,13 @@ theorem good_of_post {s s1 : TS} {r : Res} (h : Post s s1 r)
   rcases hr with rfl | rfl | rfl | rfl <;> exact ⟨⟨i, k, ro.1⟩, ro.2⟩
 
 /-- main invariant: every program, from every good state, re-establishes the postcondition -/
-theorem run_post (p : Prog) : ∀ (s : TS), NoCatch p → Good s →
+theorem run_post (p : Prog) : ∀ (s : TS), NoCatch p → Flat p → Good s →
     Post s (run true p s).2.1 (run true p s).1 := by
   induction p with
-  | skip => intro s _ h; simpa [run] using Post_refl s h none (Or.inl rfl)
-  | sleep d => intro s _ h; simpa [run] using doSleep_post s d h
+  | skip => intro s _ _ h; simpa [run] using Post_refl s h none (Or.inl rfl)
+  | sleep d => intro s _ _ h; simpa [run] using doSleep_post s d h
   | raise e =>
-    intro s hp h
+    intro s hp hf h
     simp only [run]
     cases e with
     | cancelled => exact absurd rfl hp.1
@@ -39,8 +39,8 @@ theorem run_post (p : Prog) : ∀ (s : TS), NoCatch p → Good s →
     | uncaught => exact Post_refl s h _ (by simp)
     | other => exact Post_refl s h _ (by simp)
   | seq a b iha ihb =>
-    intro s hp h
-    have ha := iha s hp.1 h
+    intro s hp hf h
+    have ha := iha s hp.1 hf.1 h
     simp only [run]
     split
     · rename_i e he; rw [he] at ha; simpa [he] using ha
@@ -48,10 +48,10 @@ theorem run_post (p : Prog) : ∀ (s : TS), NoCatch p → Good s →
       rw [he] at ha
       have hg := good_of_post ha (Or.inl rfl)
       show Post s (run true b (run true a s).2.1).2.1 (run true b (run true a s).2.1).1
-      exact Post_trans ha (ihb _ hp.2 hg.1)
+      exact Post_trans ha (ihb _ hp.2 hf.2 hg.1)
   | tryCatch b cs hd ihb ihh =>
-    intro s hp h
-    have hb := ihb s hp.1 h
+    intro s hp hf h
+    have hb := ihb s hp.1 hf.1 h
     simp only [run]
     split
     · rename_i e he
@@ -67,7 +67,7 @@ theorem run_post (p : Prog) : ∀ (s : TS), NoCatch p → Good s →
           | uncaught => simp
           | other => simp
         have hg := good_of_post hb hcatch
-        have hh := ihh _ hp.2.1 hg.1
+        have hh := ihh _ hp.2.1 hf.2 hg.1
         obtain ⟨d1, _, _, n1, _⟩ := hb
         obtain ⟨d2, i2, k2, n2, r2⟩ := hh
         show Post s (run true hd (run true b s).2.1).2.1 (run true hd (run true b s).2.1).1
@@ -75,21 +75,22 @@ theorem run_post (p : Prog) : ∀ (s : TS), NoCatch p → Good s →
       · rw [he] at hb; simpa [he] using hb
     · rename_i he; rw [he] at hb; simpa [he] using hb
   | block ig rel t body ih =>
-    intro s hp h
+    intro s hp hf h
     simp only [run]
-    exact aexit_post ig _ s _ _ (ih _ hp (enter_good s _ h))
+    exact aexit_post ig _ s _ _ (ih _ hp hf (enter_good s _ h))
+  | group anyp ms body _ => intro s _ hf; exact absurd hf id
 
 /-- **C12** on the repaired model: for every program that does not itself catch or raise the
     cancellation family, every start time and every external-cancel instant: if the cancel request
     is delivered (the task was still suspended when it came), the task ends `Cancelled` — whatever
     inner timeouts expired and were handled before, including equal deadlines. -/
-theorem external_cancel_propagates (p : Prog) (hp : NoCatch p) (now c : Int) :
+theorem external_cancel_propagates (p : Prog) (hp : NoCatch p) (hf : Flat p) (now c : Int) :
     (run true p { now := now, cancelAt := some c }).2.1.cancelAt = none →
     (run true p { now := now, cancelAt := some c }).1 = some .cancelled := by
   intro hdel
   have hgood : Good ({ now := now, cancelAt := some c } : TS) := by
     refine ⟨Or.inl rfl, ?_, ?_⟩ <;> intro m hm <;> simp at hm
-  have h := (run_post p _ hp hgood).2.2.2.2
+  have h := (run_post p _ hp hf hgood).2.2.2.2
   generalize (run true p { now := now, cancelAt := some c }).1 = r at h
   cases r with
   | none => have := h.2; rw [hdel] at this; simp at this
@@ -103,9 +104,9 @@ theorem external_cancel_propagates (p : Prog) (hp : NoCatch p) (now c : Int) :
 
 /-- the pinned `__aexit__` violates it: F13 -/
 theorem external_cancel_propagates_fails_pinned :
-    NoCatch f13 ∧ (run false f13 { cancelAt := some 5 }).2.1.cancelAt = none ∧
+    NoCatch f13 ∧ Flat f13 ∧ (run false f13 { cancelAt := some 5 }).2.1.cancelAt = none ∧
     (run false f13 { cancelAt := some 5 }).1 = some .uncaught := by
-  refine ⟨by simp [f13, NoCatch], by decide, by decide⟩
+  refine ⟨by simp [f13, NoCatch], by simp [f13, Flat], by decide, by decide⟩
 
 /-- non-vacuity: on the repaired model the same program, same instant, is delivered and ends Cancelled -/
 example : (run true f13 { cancelAt := some 5 }).2.1.cancelAt = none ∧
